@@ -54,7 +54,7 @@ impl TurtleConfig {
     }
 
     /// Indentation to use in serialization.
-    /// (defaults to `"  "`, can only contain ASCII whitespaces)
+    /// (defaults to `"  "`, can only contain Turtle whitespaces: space, tab, CR, LF)
     ///
     /// NB: currently, only used if [`pretty`][`TurtleConfig::pretty`] is `true`.
     #[must_use]
@@ -98,10 +98,12 @@ impl TurtleConfig {
     /// Transform a [`TurtleConfig`] by setting the [`indentation`][`TurtleConfig::indentation`] flag.
     ///
     /// # Precondition
-    /// `indentation` must only contain ASCII whitespaces, otherwise this method will panic.
+    /// `indentation` must only contain Turtle whitespaces (space, tab, CR, LF),
+    /// otherwise this method will panic.
     pub fn with_indentation<T: ToString>(mut self, indentation: T) -> Self {
         let indentation = indentation.to_string();
-        assert!(indentation.chars().all(char::is_whitespace));
+        // other Unicode white space (U+00A0, U+3000, form feed...) does not separate Turtle tokens
+        assert!(indentation.chars().all(|c| matches!(c, ' ' | '\t' | '\r' | '\n')));
         self.indentation = indentation;
         self
     }
